@@ -95,7 +95,58 @@ fn shader(disc: bool) -> re::render::shader::Shader<impl Fn(Vtx, ()) -> Vtx, imp
     )
 }
 
+/// One very large render call: the scene's real triangles plus `npad` triangles too small to cover any
+/// pixel centre (each at its own depth).  The planes after the call must not depend on the padding
+/// nor on the depth-sort setting: recorded for (a) the real triangles alone, (b)-(d) everything with
+/// sort none / front-to-back / back-to-front.
+fn exec_bigcall(case: &Value) -> Value {
+    let (bw, bh) = (gu(case, "bw"), gu(case, "bh"));
+    let to_screen = viewport(pt2(0, 0)..pt2(bw, bh));
+    let tris_in = case["tris"].as_array().unwrap();
+    let npad = gi(case, "npad") as usize;
+    let mut verts: Vec<Vtx> = vec![];
+    for (t, tri) in tris_in.iter().enumerate() {
+        for v in tri.as_array().unwrap() {
+            verts.push(lat_vertex(v, (t + 1) as f32));
+        }
+    }
+    let nreal = tris_in.len();
+    // padding: around the pixel corner (1, 1), a few thousandths of a pixel across, w from 1 to 3
+    let (cx, cy) = (2.0 / bw as f32 - 1.0, 2.0 / bh as f32 - 1.0);
+    for i in 0..npad {
+        let w = 1.0 + 2.0 * i as f32 / npad as f32;
+        let d = 0.002 / bw.max(bh) as f32;
+        for (dx, dy) in [(0.0, 0.0), (d, 0.0), (0.0, d)] {
+            verts.push(vertex([(cx + dx) * w, (cy + dy) * w, 2.0 * w - 3.0, w].into(), 99.0));
+        }
+    }
+    let all: Vec<Tri<usize>> = (0..nreal + npad).map(|t| Tri([3 * t, 3 * t + 1, 3 * t + 2])).collect();
+    let mut planes = vec![];
+    let mut panic = 0;
+    for (which, sort) in [(0usize, 0i64), (1, 0), (1, 1), (1, 2)] {
+        let mut fb = Framebuf {
+            color_buf: Buf2::new_from((bw, bh), std::iter::repeat(C0)),
+            depth_buf: Buf2::new_from((bw, bh), std::iter::repeat(0.0f32)),
+        };
+        let ctx = mk_ctx(&json!({"cull": 0, "sort": sort, "test": 1, "cw": 1, "dw": 1}), Stats::new());
+        let faces = if which == 0 { &all[..nreal] } else { &all[..] };
+        if guard(|| render(faces, &verts, &shader(false), (), to_screen, &mut fb, &ctx)).is_none() {
+            panic = 1;
+        }
+        let z: Vec<i64> = fb.depth_buf.data().iter().map(|z| z.to_bits() as i64 & 0x7FFF_FFFF).collect();
+        planes.push(json!([fb.color_buf.data(), z]));
+    }
+    let mut e = case.clone();
+    let o = e.as_object_mut().unwrap();
+    o.insert("panic".into(), json!(panic));
+    o.insert("planes".into(), json!(planes));
+    e
+}
+
 pub fn exec(case: &Value) -> Value {
+    if case.get("op").and_then(|v| v.as_str()) == Some("bigcall") {
+        return exec_bigcall(case);
+    }
     let (bw, bh) = (gu(case, "bw"), gu(case, "bh"));
     let vp = case["vp"].as_array().unwrap();
     let vpn = |i: usize| vp[i].as_u64().unwrap() as u32;
@@ -375,6 +426,17 @@ fn permutations(n: usize) -> Vec<Vec<usize>> {
 
 pub fn gen(args: &Args, out: &mut dyn Write) {
     let thorough = args.tier == "thorough";
+    if args.rest.first().map(|s| s.as_str()) == Some("bigcall") {
+        let mut rng = Rng::new(args.seed ^ 0xB16C);
+        for i in 0..(if thorough { 12 } else { 3 }) {
+            let (bw, bh) = (rng.range(6, 12), rng.range(5, 9));
+            let tris: Vec<[[i64; 4]; 3]> = (0..3).map(|_| gen_tri(&mut rng, true, 5, 11)).collect();
+            // call sizes around the 16-bit boundary
+            let npad = [65_533i64, 65_540, 70_000, 131_080][i % 4];
+            writeln!(out, "{}", json!({"k": format!("B{}-{}", args.seed, i), "op": "bigcall", "bw": bw, "bh": bh, "tris": tris, "npad": npad})).unwrap();
+        }
+        return;
+    }
     let n = args.n.unwrap_or(if thorough { 600 } else { 60 });
     // mode "c06": order-independence histories; "c07": flag histories; default both
     let mode = args.rest.first().map(|s| s.as_str()).unwrap_or("all").to_string();
